@@ -45,7 +45,13 @@ def run_one(m, worker):
     try:
         dst = os.path.join(scratch, "repo")
         shutil.copytree(REPO, dst, ignore=shutil.ignore_patterns("target", ".git", "*.raw", "test-data"))
-        muts = m.get("edits") or [m]
+        if m.get("patch"):
+            pr = subprocess.run(["patch", "-p1", "-s", "-d", dst, "-i", os.path.join(VERIF, "selftest", "patches", m["patch"])], stdout=subprocess.PIPE, stderr=subprocess.STDOUT, text=True)
+            if pr.returncode != 0:
+                return dict(id=m["id"], status="skipped", why="patch failed: " + pr.stdout[-200:])
+            muts = []
+        else:
+            muts = m.get("edits") or [m]
         for e in muts:
             err = apply_mut(dst, e)
             if err:
